@@ -109,7 +109,6 @@ func verifHeapRemove(i int) *tssItem { return heap.Remove(&tssQ, i).(*tssItem) }
 //@   modifies *rxt, *txt, *resp, tssMu, tss, tssQ, tssQ[:], every(tssQ[0].qidx), every(tssQ[0].qval), every(tssQ[0].len), every(tssQ[0].buf)
 //@   allocates
 //@   requires req != nil && rxt != nil && txt != nil && resp != nil && rxt != txt && req != resp
-//@   requires 0 <= rxt.Unix() && rxt.Unix() <= 8589934592
 //@   lockinv tssOK()
 //@   entry rxt0 := *rxt
 //@   loop 0 invariant tssi != nil && tssi == tss[clientID] && inmap(tss, clientID)
@@ -141,13 +140,12 @@ func verifHeapRemove(i int) *tssItem { return heap.Remove(&tssQ, i).(*tssItem) }
 //@   split 1 2 3 4 5
 //@   modifies *txt, tssMu, tss, tssQ, tssQ[:], every(tssQ[0].qidx), every(tssQ[0].qval), every(tssQ[0].len), every(tssQ[0].buf)
 //@   requires txt != nil
-//@   requires -1099511627776 <= rxt.Unix() && rxt.Unix() <= 1099511627776
 //@   lockinv tssOK()
 //@   loop 0 invariant 0 <= i && i <= tssi.len
 //@   loop 0 invariant (x == -1 || (0 <= x && x < i && tssi.buf[x].rxt == rxt64)) && forall(j, 0, i, tssi.buf[j].rxt == rxt64 ==> x == j)
 //@   loop 0 invariant (max0 == -1) == (i == 0) && (max0 != -1 ==> 0 <= max0 && max0 < i) && forall(j, 0, i, !tssi.buf[max0].rxt.Before(tssi.buf[j].rxt))
 //@   loop 0 invariant (max1 == -1) == (i <= 1) && (max1 != -1 ==> 0 <= max1 && max1 < i && max1 != max0) && forall(j, 0, i, j != max0 ==> !tssi.buf[max1].rxt.Before(tssi.buf[j].rxt))
-//@   ensures later: rxt.Before(*txt)
+//@   ensures later: -1099511627776 <= rxt.Unix() && rxt.Unix() <= 1099511627776 ==> rxt.Before(*txt)
 //@   ensures untouched: !found(clientID, ntp.Time64FromTime(rxt)) ==> all(k string, inmap(tss, k) == old(inmap(tss, k)) && tss[k] == old(tss[k])) && all(p *tssItem, p.len == old(p.len) && p.qval == old(p.qval) && forall(j, 0, 8, p.buf[j] == old(p.buf[j])))
 //@   ensures recorded: found(clientID, ntp.Time64FromTime(rxt)) && !norecord(clientID, ntp.Time64FromTime(rxt), ntp.Time64FromTime(*txt)) ==> inmap(tss, clientID) && tss[clientID] == old(tss[clientID]) && tss[clientID].len == old(tss[clientID].len) && forall(j, 0, tss[clientID].len, tss[clientID].buf[j].rxt == old(tss[clientID].buf[j].rxt) && (tss[clientID].buf[j].rxt == ntp.Time64FromTime(rxt) ==> tss[clientID].buf[j].txt == ntp.Time64FromTime(*txt)) && (tss[clientID].buf[j].rxt != ntp.Time64FromTime(rxt) ==> tss[clientID].buf[j].txt == old(tss[clientID].buf[j].txt)))
 //@   ensures dropped: norecord(clientID, ntp.Time64FromTime(rxt), ntp.Time64FromTime(*txt)) ==> (old(tss[clientID].len) == 1 ==> !inmap(tss, clientID)) && (old(tss[clientID].len) != 1 ==> inmap(tss, clientID) && tss[clientID] == old(tss[clientID]) && tss[clientID].len == old(tss[clientID].len)-1 && forall(j, 0, tss[clientID].len, tss[clientID].buf[j].rxt != ntp.Time64FromTime(rxt)))
